@@ -245,16 +245,18 @@ class BaseClient:
         # - self.handlers[namespace]["*"]
         # - self.handlers["*"][event]
         # - self.handlers["*"]["*"]
+        # an event or a namespace literally named "*" is not a specific
+        # key: it only ever reaches the catch-all handlers
         handler = None
-        if namespace in self.handlers:
-            if event in self.handlers[namespace]:
+        if namespace != '*' and namespace in self.handlers:
+            if event != '*' and event in self.handlers[namespace]:
                 handler = self.handlers[namespace][event]
             elif event not in self.reserved_events and \
                     '*' in self.handlers[namespace]:
                 handler = self.handlers[namespace]['*']
                 args = (event, *args)
         if handler is None and '*' in self.handlers:
-            if event in self.handlers['*']:
+            if event != '*' and event in self.handlers['*']:
                 handler = self.handlers['*'][event]
                 args = (namespace, *args)
             elif event not in self.reserved_events and \
@@ -270,7 +272,7 @@ class BaseClient:
         # - self.namespace_handlers[namespace]
         # - self.namespace_handlers["*"]
         handler = None
-        if namespace in self.namespace_handlers:
+        if namespace != '*' and namespace in self.namespace_handlers:
             handler = self.namespace_handlers[namespace]
         elif '*' in self.namespace_handlers:
             handler = self.namespace_handlers['*']
